@@ -80,6 +80,9 @@ type ReadPlan struct {
 	Pre      int    `json:"pre"`       // bytes consumed with Read before WriteTo
 	Src      string `json:"src"`       // reader (*bytes.Reader) | buffer (*bytes.Buffer) | chunk | eofdata
 	SrcChunk int    `json:"src_chunk"` // chunk/eofdata: bytes per Read of the compressed source (0 = all)
+	// PostEOF: after the Read that reported the end of the stream the consumer reads once more (what a reader following
+	// io.Reader's "the next Read should return 0, EOF" permits, and what testing/iotest.TestReader does)
+	PostEOF bool `json:"post_eof,omitempty"`
 }
 
 type Stream struct {
@@ -837,6 +840,12 @@ func (s *rsess) step() *failure {
 		return failf("read/"+s.tag, "stream %d: the reader delivers more than the %d bytes of the payload", s.idx, s.out.limit-64)
 	}
 	if err == io.EOF {
+		if p.PostEOF {
+			var one [16]byte
+			if n2, err2 := s.r.Read(one[:]); n2 != 0 || err2 != io.EOF {
+				return failf("read-after-eof/"+s.tag, "stream %d: the stream ended after %d bytes (Read returned %d, io.EOF); the next Read returned (%d, %v) instead of (0, io.EOF)", s.idx, s.out.buf.Len(), got, n2, err2)
+			}
+		}
 		return s.close()
 	}
 	if err != nil {
@@ -1741,6 +1750,7 @@ func genStream(t *rapid.T, label string, cs CodecSpec, huge bool) Stream {
 	}
 	s.R.Bufs = genSizes(t, label+"_bufs", -1)
 	s.R.Src = rapid.SampledFrom([]string{"reader", "buffer", "chunk", "eofdata"}).Draw(t, label+"_src")
+	s.R.PostEOF = rapid.IntRange(0, 2).Draw(t, label+"_postEOF") == 0
 	if s.R.Src == "chunk" || s.R.Src == "eofdata" {
 		s.R.SrcChunk = rapid.SampledFrom([]int{0, 1, 3, 17, 1000, 4096}).Draw(t, label+"_srcchunk")
 	}
